@@ -32,7 +32,14 @@ impl DeError {
 		}
 	}
 	pub(crate) fn unexpected_eof() -> Self {
-		Self::new("Unexpected end of slice while deserializing")
+		// Same classification as what reading from an `impl BufRead` gives when
+		// the input ends prematurely (`read_exact` fails with `UnexpectedEof`):
+		// in particular the object container file reader relies on it to know
+		// that it can't keep reading a block after that
+		Self::custom_io(
+			"Unexpected end of slice while deserializing",
+			std::io::ErrorKind::UnexpectedEof.into(),
+		)
 	}
 	pub(crate) fn io(io_error: std::io::Error) -> Self {
 		Self::custom_io(
